@@ -158,6 +158,22 @@ def check_collection(q, cid, prog_order_free, out, replay, rng, index_free=False
         ok = len(exp) <= len(got) <= nrows and D.equiv(got, _rows(whole, len(whole) - len(got), None), index_free=index_free) is not False
         if not ok:
             viol(out, "C11.tail:differs", f"{cid}|tail({nrows})", f"got={D.describe(got)} expected={D.describe(exp)}", replay)
+    # head of a head / tail of a tail: the outer selection never returns more than the inner one holds
+    for inner, outer in ((2, 5), (4, 3)):
+        for kind in ("head", "tail"):
+            try:
+                with warnings.catch_warnings():
+                    warnings.simplefilter("ignore")
+                    first = getattr(q, kind)(inner, compute=False)
+                    exp = first.compute()
+                    got = getattr(first, kind)(outer)
+            except Exception as ex:
+                viol(out, f"C11.{kind}:raises", f"{cid}|{kind}({inner}).{kind}({outer})", f"{type(ex).__name__}: {str(ex)[:200]}", replay)
+                continue
+            bump(out, f"C11.{kind}:nested", f"{cid}|{inner},{outer}", rule="x.head(a).head(b) / x.tail(a).tail(b) against the first / last min(a, b) rows of the computed inner selection")
+            want = _rows(exp, 0, outer) if kind == "head" else _rows(exp, max(len(exp) - outer, 0), None)
+            if D.equiv(got, want, index_free=index_free) is False:
+                viol(out, f"C11.{kind}:differs", f"{cid}|{kind}({inner}).{kind}({outer})", f"got={D.describe(got)} expected={D.describe(want)}", replay)
 
 
 def check_case(case, common, out):
